@@ -361,7 +361,8 @@ def real_case(task: dict) -> dict:
     res["meter"] = {"adds": _Reg.adds, "admitted": _Reg.admitted, "completes": _Reg.completes,
                     "incomplete": sum(1 for c in cols for s in c.states if s.is_incomplete),
                     "ncols": len(cols), "states": _Reg.states}
-    if status in ("ok", "truncated") or status.startswith("exc:"):
+    if status in ("ok", "truncated", "steplimit") or status.startswith("exc:"):
+        # (for a run stopped by the step meter: the chart as far as it got, for the lock-step prefix comparison)
         try:
             res["cols"] = [[namer.state(s) for s in c.states if not s.is_incomplete] for c in cols]
             seen = set()
@@ -495,6 +496,23 @@ def canon_cols(cols: list) -> list:
 def canon_core_cols(cols: list) -> list:
     """per column the *set* of core items (children ignored)"""
     return [sorted({json.dumps(s[:4], separators=(",", ":")) for s in col}) for col in cols]
+
+
+def lockstep_mismatch(model_cols: list, real_cols: list) -> Optional[dict]:
+    """two runs of the same deterministic machine stopped at different points: in every column the states admitted
+    so far (admission order) of the one that got less far are a prefix of the other's.  None = compatible."""
+    for k in range(max(len(model_cols), len(real_cols))):
+        a = [json.dumps(s, separators=(",", ":")) for s in (model_cols[k] if k < len(model_cols) else [])]
+        b = [json.dumps(s, separators=(",", ":")) for s in (real_cols[k] if k < len(real_cols) else [])]
+        n = min(len(a), len(b))
+        for i in range(n):
+            if a[i] != b[i]:
+                return {"column": k, "index": i, "model": a[i], "real": b[i]}
+    return None
+
+
+def max_alts(rules: dict) -> int:
+    return max([len(alts) for alts in rules.values()] + [1])
 
 
 def canon_forest(forest: list) -> list:
